@@ -110,10 +110,11 @@ func (e *expEnv) compile(ctx context.Context) (out expOutcome) {
 	}
 	if rep != nil {
 		out.rendered, _, _ = report.Renderer{}.RenderString(rep)
+		out.rendered = ptrRE.ReplaceAllString(out.rendered, "0xPTR")
 		out.ndiag = len(rep.Diagnostics)
 		for _, d := range rep.Diagnostics {
 			one, _, _ := report.Renderer{}.RenderString(&report.Report{Options: rep.Options, Diagnostics: []report.Diagnostic{d}})
-			out.diags = append(out.diags, one)
+			out.diags = append(out.diags, ptrRE.ReplaceAllString(one, "0xPTR"))
 		}
 		out.report = rep
 	}
@@ -138,6 +139,9 @@ func (e *expEnv) evict(paths []string) {
 	}
 	e.exec.Evict(keys...)
 }
+
+// ptrRE masks pointer values that internal-compiler-error diagnostics print.
+var ptrRE = regexp.MustCompile(`0x[0-9a-f]{6,}`)
 
 var importRE = regexp.MustCompile(`(?m)^import\s+(?:public\s+|weak\s+)?"([^"]+)"\s*;`)
 
@@ -235,7 +239,7 @@ func sptr(s string) *string { return &s }
 
 // genEditSteps draws an edit history over the workspace.
 func genEditSteps(t *rapid.T, wl *CompileWL, n int) []EditStep {
-	cur := wl.sources()
+	cur := wl.userSources()
 	transient := map[string]bool{}
 	deleted := map[string]string{}
 	var names []string
